@@ -218,6 +218,16 @@ def cossin(x):
         lin = x.lin
     if lin is None:
         lin = opaque_angle(x).lin
+    else:
+        # atoms scaled by something that is not a rational (resp. rational multiple of pi for degree atoms): the whole
+        # term becomes an opaque angle of its own
+        for name, k in lin.a.items():
+            at = CTX.atoms[name]
+            ok = (k.rational() is not None) if at['unit'] == 'rad' else (k.pi_rational() is not None)
+            if not ok and isinstance(x, SR):
+                x.lin = None
+                lin = opaque_angle(x).lin
+                break
     C, S = z3.RealVal(1), z3.RealVal(0)
 
     def mul(C, S, ck, sk):
